@@ -39,6 +39,9 @@ inductive Step where
   | guard (id : String) (a n : Nat) (err : Nat) (zd zn : Nat)
   /-- early `return err` when the (address) condition holds: argument checks of the C function -/
   | reject (cond : Bool) (err : Nat)
+  /-- domain of the model: a placement for which `ok` is false is outside what the model describes (`none`) —
+      used for the buffer pairs of a function whose header is silent and whose overlap is NOT tolerated by the code -/
+  | domain (ok : Bool)
   deriving Repr
 
 structure St where
@@ -66,6 +69,7 @@ def run (c : Core) : List Step → St → Option St
     if c.ok id s.tr (read s.mem a n) then run c ps s
     else some { s with mem := memSet s.mem zd 0 zn, ret := err }
   | .reject cond err :: ps, s => if cond then some { s with ret := err } else run c ps s
+  | .domain ok :: ps, s => if ok then run c ps s else none
 
 def ERR_BAD_INPUT : Nat := 109
 def ERR_BAD_MAC : Nat := 511
@@ -162,6 +166,41 @@ def progDstuCompress (idx idv : String) (xpoint point no : Nat) : List Step :=
     `qrTo(point, x); qrTo(point + no, y)` at the end -/
 def progDstuRecover (idg idv : String) (point xpoint no : Nat) : List Step :=
   [.absorb xpoint no, .guard idv 0 0 ERR_BAD_PARAMS 0 0, .emit idg point (2 * no)]
+
+/-! ### High-level functions whose header is silent about overlap (bign, bign96, bels, bake, bpki, btok, dstu, g12s,
+    pfok, hex, u16): the public-key functions load every input into the blob (`wwFrom`, `qrFrom`, hashing) and store
+    the results last.  Generic shape: all inputs absorbed, then all outputs emitted; the (output, input) pairs that
+    the code does NOT tolerate (observed on the real library, listed in xlate/x_c11_hl.py and docs/C11.md) delimit
+    the domain. -/
+
+def absorbs (ins : List (Nat × Nat)) : List Step := ins.map fun p => .absorb p.1 p.2
+def emits (outs : List (String × Nat × Nat)) : List Step := outs.map fun o => .emit o.1 o.2.1 o.2.2
+
+/-- `dom` = all not-tolerated pairs are disjoint in this placement -/
+def progIO (dom : Bool) (ins : List (Nat × Nat)) (outs : List (String × Nat × Nat)) : List Step :=
+  .domain dom :: (absorbs ins ++ emits outs)
+
+/-- bign_keyt.c `bignKeyWrap` (HEAD): pubkey and the generator output are consumed first (R, theta in the blob);
+    `memCopy(R + n, header, 16)` (header absorbed, or zeros); `memMove(token + no, key, len)`;
+    `memCopy(token + no + len, R + n, 16)` (emit of the saved header); KWP StepE in place on `[token + no, +len + 16)`;
+    finally `token[0 .. no)` := x-coordinate.  `hdrNull` = null header. -/
+def progBignKeyWrap (id : String) (token key len header pubkey no : Nat) (hdrNull : Bool) : List Step :=
+  [.absorb pubkey (2 * no), .absorb header (if hdrNull then 0 else 16), .move (token + no) key len,
+   .emit (id ++ ".hdr") (token + no + len) 16, .xform (id ++ ".x") (token + no) (len + 16), .emit (id ++ ".R") token no]
+
+/-- the seeded change C02-m5: `memMove(token + no, key, len); memMove(token + no + len, header, 16)` straight from the
+    caller's pointer -/
+def progBignKeyWrap_m5 (id : String) (token key len header pubkey no : Nat) : List Step :=
+  [.absorb pubkey (2 * no), .move (token + no) key len, .move (token + no + len) header 16,
+   .xform (id ++ ".x") (token + no) (len + 16), .emit (id ++ ".R") token no]
+
+/-- bign_keyt.c `bignKeyUnwrap` as fixed by docs/C11.fix-6.diff: privkey and `token[0 .. no)` consumed; token tail and
+    header saved next to the state; `memMove(key, token + no, len - no - 16)`; KWP StepD2 on (key, header2); comparison of
+    the two saved headers, wipe on failure -/
+def progBignKeyUnwrap (id : String) (key token len header privkey no : Nat) (hdrNull : Bool) : List Step :=
+  [.absorb privkey no, .absorb token no, .absorb (token + len - 16) 16, .absorb header (if hdrNull then 0 else 16),
+   .move key (token + no) (len - no - 16), .xform (id ++ ".x") key (len - no - 16),
+   .guard (id ++ ".v") 0 0 ERR_BAD_KEYTOKEN key (len - no - 16)]
 
 /-! ### State-resident placements (the state IS caller memory here) -/
 
